@@ -4,6 +4,7 @@
 # catching it, undo. Prints one line per change; exit 1 if any change is no longer detected.
 # NEVER run this while other checks are running: it patches /repo's working tree for the duration of each check.
 cd /verif
+export VERIF_EVIDENCE_DIR=/tmp/verif-experiment-evidence
 PAT=${1:-.}
 git -C /repo diff --quiet || { echo "/repo working tree is not clean"; exit 2; }
 MISS=0
